@@ -29,6 +29,8 @@ func c16(c *Check) {
 	hook := c.F("x/aggregate/keeper.Keeper.OnRecvPacket")
 	fa := c.P.FA(hook)
 
+	c.Rule("C16/no-swallowed-panic", "no function of the aggregate module and its middleware defers a recover() that lets it return normally after a panic: the middleware would hand IBC core a nil acknowledgement (an accepted receive that is never acknowledged) or the hook a nil error", 1)
+	noSwallowedPanic(c, "C16/no-swallowed-panic", fnsInPackages(c, "/x/aggregate"))
 	c.Rule("C16/ack-passthrough", "every return of the aggregate OnRecvPacket hook yields the acknowledgement it was handed (parameter ack), never nil or a new value", 3)
 	n := 0
 	for _, b := range hook.Blocks {
